@@ -37,7 +37,8 @@ impl ArgumentType {
     pub fn is_valid(&self, value: &Rcvar) -> bool {
         use self::ArgumentType::*;
         match *self {
-            Any => true,
+            // "any" ranges over the JSON types; an expression reference is not a value.
+            Any => !value.is_expref(),
             Null if value.is_null() => true,
             String if value.is_string() => true,
             Number if value.is_number() => true,
